@@ -63,7 +63,10 @@ pub fn check(c: &TraceCase, st: &mut Stats) -> Result<(), Fail> {
     let inter = c.interleaved();
     let per = c.per_conn();
     let cap = 4 * c.conns.len() + 16; // the property's premise: within the configured capacity
-    for k in [Kind::Tcp, Kind::Http, Kind::Tls, Kind::Unified] {
+    // tight capacity: exactly one table entry per connection of the trace, for the two analyzers whose tables hold one entry per
+    // connection at a time (HTTP: direction-less flow key; TLS: one reader per connection, removed when the ClientHello is reported)
+    let n = c.conns.len().max(1);
+    for (k, cap, tight) in [(Kind::Tcp, cap, false), (Kind::Http, cap, false), (Kind::Tls, cap, false), (Kind::Unified, cap, false), (Kind::Http, n, true), (Kind::Tls, n, true)] {
         // isolated runs
         let mut iso: Vec<Vec<Vec<String>>> = vec![];
         for pk in &per {
@@ -78,6 +81,7 @@ pub fn check(c: &TraceCase, st: &mut Stats) -> Result<(), Fail> {
             let exp = &iso[p.conn][pos[p.conn]];
             if &got != exp {
                 let what = if exp.is_empty() { "result-appears-only-with-other-traffic" } else if got.is_empty() { "result-suppressed-by-other-traffic" } else { "result-altered-by-other-traffic" };
+                let what = if tight { format!("{what}:capacity-equal-to-the-number-of-connections") } else { what.to_string() };
                 return Err(fail!(format!("{:?}:{what}", k), "connection {} packet #{} (trace position {gi})\nalone       {}\ninterleaved {}", p.conn, pos[p.conn], truncate(&format!("{:?}", exp), 600), truncate(&format!("{:?}", got), 600)));
             }
             pos[p.conn] += 1;
